@@ -265,3 +265,88 @@ func ruleDiffGuards(c *Ctx, r *Report) {
 			"joingNMIPaths no longer clones the parent path: sibling leaves share one backing array and overwrite each other's path elements")
 	}
 }
+
+// ruleDiffSkip: R-DIFF-SKIP — which populated fields findSetLeaves leaves out of a diff.
+func ruleDiffSkip(c *Ctx, r *Report) {
+	r.Rule("R-DIFF-SKIP", "findSetLeaves' iterator silently skips a field only for the documented reasons — zero StructField, annotation field, already-processed path, nil/invalid/default value or map, struct pointer that is not an ordered map treated as a leaf, empty ordered map, unset enum — so every other populated leaf (including zero-length binaries and empty leaf-lists held in non-nil slices) reaches the diff", 7)
+	f := c.MustFunc(r, "ygot", "findSetLeaves")
+	if f == nil {
+		return
+	}
+	info := f.Info()
+	iter := firstFuncLit(f.Decl.Body)
+	if iter == nil {
+		r.Und("ygot.findSetLeaves:iterator", c.Pos(f.Decl.Pos()), "iterator closure not found")
+		return
+	}
+	// the recording store.
+	var rec token.Pos
+	ast.Inspect(iter.Body, func(n ast.Node) bool {
+		if as, ok := n.(*ast.AssignStmt); ok && len(as.Lhs) == 1 {
+			if ix, ok := as.Lhs[0].(*ast.IndexExpr); ok && types.ExprString(ix.X) == "outs" {
+				rec = as.Pos()
+			}
+		}
+		return true
+	})
+	if rec == token.NoPos {
+		r.Bad("ygot.findSetLeaves:records", c.Pos(iter.Pos()), "findSetLeaves no longer records set leaves into its result map")
+		return
+	}
+	allowedCalls := map[string]bool{
+		"reflect.DeepEqual": true, P("util") + ".IsYgotAnnotation": true, P("util") + ".IsNilOrInvalidValue": true, P("util") + ".IsValueNilOrDefault": true,
+		P("util") + ".IsValueMap": true, P("util") + ".IsValueStructPtr": true, "reflect.Value.Interface": true, "reflect.Value.Int": true,
+		P("ygot") + ".GoOrderedMap.Len": true,
+	}
+	pm := c.parentMap(f.File)
+	n := 0
+	for _, rs := range returnsOf(iter) {
+		if rs.Pos() > rec {
+			continue
+		}
+		// innermost enclosing if.
+		var is *ast.IfStmt
+		for p := pm[rs]; p != nil && p != ast.Node(iter); p = pm[p] {
+			if x, ok := p.(*ast.IfStmt); ok {
+				is = x
+				break
+			}
+		}
+		if is == nil {
+			continue
+		}
+		// error paths assign errs in the same block: not silent.
+		silent := true
+		for _, s := range is.Body.List {
+			if as, ok := s.(*ast.AssignStmt); ok && len(as.Lhs) == 1 && types.ExprString(as.Lhs[0]) == "errs" {
+				silent = false
+			}
+		}
+		if !silent {
+			continue
+		}
+		n++
+		key := fmt.Sprintf("ygot.findSetLeaves$iter:skip#%d", n)
+		bad := ""
+		ast.Inspect(is.Cond, func(x ast.Node) bool {
+			call, ok := x.(*ast.CallExpr)
+			if !ok {
+				return true
+			}
+			if id, ok := call.Fun.(*ast.Ident); ok {
+				if _, isB := info.Uses[id].(*types.Builtin); isB {
+					if id.Name == "len" {
+						return true
+					}
+				}
+			}
+			fn := FullName(Callee(info, call))
+			if !allowedCalls[fn] {
+				bad = short(fn)
+			}
+			return true
+		})
+		// the already-processed lookup and the err test use no calls; a Len() must be the ordered map's.
+		r.Check(bad == "", key, c.Pos(rs.Pos()), "documented skip reason: "+exprKey(is.Cond), "findSetLeaves skips a populated field when `"+types.ExprString(is.Cond)+"` (uses "+bad+"), which is not one of the documented reasons: such leaves (e.g. a zero-length binary) are reported as deleted or not reported at all")
+	}
+}
